@@ -87,25 +87,26 @@ def run(ctx):
     # ---- shapes of the real output under every option vector, and command line == library
     n = (6 if ctx['tier'] == 'quick' else 40) * ctx.get('mult', 1)
     sheets = []
+    asts = []
     while len(sheets) < n:
-        g = S.Gen(rng, ['media', 'amp', 'keyframes', 'fontface'])
+        g = S.Gen(rng, ['media', 'amp', 'keyframes', 'fontface', 'attr'])
         sh = g.sheet(nunits=rng.choice([1, 2, 3]), depth=2)
-        if S.sel_count(sh) <= 20:
+        if S.sel_count(sh) <= 20 and not S.has_amp_after_bracket(sh):
             sheets.append(S.show(sh, S.Layout(rng)))
-    reqs = [{'kind': 'compile', 'text': t, 'opts': SC.impl_opts(o)} for t in sheets for o in SC.ALL_OPTS]
-    with impl.Pool() as pool:
-        ans = pool.run(reqs)
-    k = 0
+            asts.append(sh)
+    # every sheet under ALL 72 option vectors: byte-exact model + reference semantics + documented shape
+    allcases = [{'sheet': a, 'text': t, 'opts': o, 'classes': []} for a, t in zip(asts, sheets) for o in SC.ALL_OPTS]
+    o2, ans = SC.run(dict(ctx, scratch=os.path.join(ctx['scratch'], 'all72')), allcases, tag='all72')
+    for k in ('spec_mismatch', 'model_mismatch', 'harness_errors'):
+        out[k] += o2[k]
     shapes = 0
-    for t in sheets:
-        for o in SC.ALL_OPTS:
-            a = ans[k]; k += 1
-            if a.get('r') != 'ok':
-                continue
-            shapes += 1
-            why = shape_problem(a['css'], o)
-            if why:
-                out['spec_mismatch'].append({'input': {'text': t, 'opts': o}, 'impl': a, 'spec': 'shape: ' + why, 'classes': []})
+    for c, a in zip(allcases, ans):
+        if a.get('r') != 'ok':
+            continue
+        shapes += 1
+        why = shape_problem(a['css'], c['opts'])
+        if why:
+            out['spec_mismatch'].append({'input': {'text': c['text'], 'opts': c['opts']}, 'impl': a, 'spec': 'shape: ' + why, 'classes': []})
     # command line
     scratch = tempfile.mkdtemp(prefix='lessverif-c11-')
     cli = 0
